@@ -150,11 +150,12 @@ def main(argv):
             nbad = 0
             for nt in (1, 2, 3, 4, 7, 16):
                 for strat in range(7):
-                    p = subprocess.run([exe, str(nt), str(strat)], capture_output=True, text=True)
-                    if p.returncode != 0:
-                        nbad += 1
-                        print("HARNESS-ERROR rt_selftest nt=%d strategy=%d: %s" % (nt, strat, p.stdout.strip()[-200:]))
-            print("rt_selftest: 42 (team size, strategy) runs of the OpenMP construct program: %s" % ("OK" if not nbad else "%d WRONG" % nbad))
+                    for nested in (0, 3):
+                        p = subprocess.run([exe, str(nt), str(strat), str(nested)], capture_output=True, text=True)
+                        if p.returncode != 0:
+                            nbad += 1
+                            print("HARNESS-ERROR rt_selftest nt=%d strategy=%d nested=%d: %s" % (nt, strat, nested, p.stdout.strip()[-200:]))
+            print("rt_selftest: 84 (team size, strategy, nested teams off/on) runs of the OpenMP construct program: %s" % ("OK" if not nbad else "%d WRONG" % nbad))
             bad += 1 if nbad else 0
         import shutil
 
